@@ -24,7 +24,7 @@ func C04_Jobs() []string {
 	for _, k := range []string{"int", "str", "bool", "slice", "ptr", "structfield"} {
 		out = append(out, "ws/"+k)
 	}
-	out = append(out, "default-items/parse", "default-items/validate", "struct-input", "absent-items", "empty-composites", "zero-instant")
+	out = append(out, "default-items/parse", "default-items/validate", "struct-input", "absent-items", "empty-composites", "zero-instant", "validate-blank-and-negzero")
 	for _, k := range []string{"int", "str", "bool", "float", "time", "slice", "ptr"} {
 		for _, m := range []string{"parse", "validate"} {
 			for d := 0; d < 4; d++ {
@@ -582,6 +582,41 @@ func c04Extra(kind, mode string) {
 			v.Cover("skipped")
 			v.Assert(len(errs[key]) == 0 && called == 2 && len(d) == 3 && d[pos] == 0, "C04:optional-absent-tested")
 		}
+	case "validate-blank-and-negzero":
+		// Validate: absent iff the Go zero value. A non-empty string of white space is NOT "" (present:
+		// Required satisfied, tests run, Default leaves it alone) - ALL byte strings <=2; negative zero
+		// IS equal to the float zero value (absent), as every other zero
+		s := v.String("s", 2)
+		v.Assume(len(s) > 0)
+		called := 0
+		rec := func(val any, c z.Ctx) bool { called++; return true }
+		d := s
+		e1 := z.String().Required().Default("dflt").TestFunc(rec).Validate(&d)
+		v.Cover("present")
+		v.Assert(len(e1) == 0 && called == 1 && d == s, "C04:present-value-reported-absent")
+		var ds struct {
+			A string
+			L []string
+		}
+		ds.A, ds.L = s, []string{s}
+		e2 := z.Struct(z.Schema{"a": z.String().Required().TestFunc(rec), "l": z.Slice(z.String().Required().Default("dflt").TestFunc(rec))}).Validate(&ds)
+		v.Assert(e2 == nil && called == 3 && ds.A == s && ds.L[0] == s, "C04:present-value-reported-absent")
+		f := v.Float64("f")
+		v.Assume(f == 0) // +0 or -0
+		fcalled := 0
+		e3 := z.Float64().Required().TestFunc(func(val any, c z.Ctx) bool { fcalled++; return true }).Validate(&f)
+		v.Cover("required-issue")
+		v.Assert(len(e3) == 1 && e3[0].Code == "required" && fcalled == 0, "C04:required-absent-not-reported")
+		g := v.Float64("g")
+		v.Assume(g == 0)
+		e4 := z.Float64().Default(2.5).Validate(&g)
+		v.Cover("default-applied")
+		v.Assert(len(e4) == 0 && g == 2.5, "C04:default-not-stored")
+		f32 := float32(v.Float64("h"))
+		v.Assume(f32 == 0)
+		e5 := z.Float32().TestFunc(func(val any, c z.Ctx) bool { fcalled++; return false }).Validate(&f32)
+		v.Cover("skipped")
+		v.Assert(len(e5) == 0 && fcalled == 0, "C04:optional-absent-tested")
 	case "zero-instant":
 		// Validate: absent iff the Go zero value. The instant 0001-01-01T00:00:00Z carried in a
 		// non-nil location is NOT time.Time{}: it is present (Required satisfied, tests run, Default
@@ -673,7 +708,7 @@ func c04Extra(kind, mode string) {
 
 func C04_Run(job string) {
 	a, b, c, d := split3(job)
-	if a == "default-items" || a == "struct-input" || a == "absent-items" || a == "empty-composites" || a == "zero-instant" {
+	if a == "default-items" || a == "struct-input" || a == "absent-items" || a == "empty-composites" || a == "zero-instant" || a == "validate-blank-and-negzero" {
 		c04Extra(a, b)
 		v.Cover("ws:blank")
 		return
